@@ -326,6 +326,33 @@ def exec (idna : Idna) (st : St) (toks : List String) : St × String :=
     let u := parseUnits units
     let f (o : Option Host) := match o with | some h => s!"{hostKindCode h.kind}:{hx h.text}" | none => "F"
     (st, s!"{f (parseHost idna (decode e u) false)} ## {f (Spec.hostParse idna (Spec.decode e u) false)}")
+  | ["idnahyp", enc, units] =>
+    -- the instances of the IDNA hypotheses of C01 / C02 / C03 / C07 / C08 (IdnaOk.ascii, IdnaOk.persist,
+    -- IdnaCanon.out_ascii = IdnaStable.out_ascii = IdnaNonEmpty, IdnaStable.idem) at the ToASCII input the host
+    -- parser computes for this host text, evaluated on the ICU oracle
+    let s := decode (parseEnc enc) (parseUnits units)
+    let dom := encodeUtf16 (decode .u8 (percentDecode s))
+    let out := idna dom
+    let outAscii := match out with
+      | some r => !r.isEmpty && r.all (fun c => decide (c < 0x80) && !isUpperAlpha c)
+      | none => true
+    let asciiLive := !dom.isEmpty && dom.all Spec.asciiDomainChar && !hasXnLabel dom
+    let ascii := if asciiLive then out == some (dom.map toLower) else true
+    let persistLive := match dom.dropWhile Spec.asciiDomainChar with
+      | p :: post =>
+        decide (p < 0x80) && p != 0x25 && Spec.forbiddenDomain p && post.all (fun u => decide (u < 0x10000)) &&
+            !((p == 0x3C || p == 0x3E) && (match post with | n :: _ => decide (n ≥ 0x80) | [] => false))
+      | [] => false
+    let persist := if persistLive then (match out with | some a => a.any Spec.forbiddenDomain | none => true) else true
+    let idemLive := match out with
+      | some r => r.all (fun c => !Spec.forbiddenDomain c) && !endsInNumber r && hasXnLabel r
+      | none => false
+    let idem := if idemLive then (match out with | some r => idna r == some r | none => true) else true
+    let bad := (if outAscii then [] else ["out_ascii"]) ++ (if ascii then [] else ["ascii"]) ++ (if persist then [] else ["persist"]) ++ (if idem then [] else ["idem"])
+    -- after "##": which hypotheses had their premises met here (a = ascii, p = persist with ToASCII succeeding,
+    -- o = out_ascii i.e. ToASCII succeeded, i = idem)
+    let live := (if asciiLive then "a" else "") ++ (if persistLive && out.isSome then "p" else "") ++ (if out.isSome then "o" else "") ++ (if idemLive then "i" else "")
+    (st, (if bad.isEmpty then "hyp=1" else "hyp=0:" ++ ",".intercalate bad) ++ " ## live=" ++ live)
   | ["cmp", a, b] =>
     let x := parseUnits a
     let y := parseUnits b
